@@ -4,8 +4,9 @@ import PfModel.Model.ErrorsAsync
 import PfModel.Model.ErrorsStore
 import PfModel.Model.ErrorsKinds
 import PfModel.Model.ErrorsProto
+import PfModel.Model.ErrorsFile
 /-! Driver for C13 (`call.fail`, `map.fail`): the failure models of `PfModel/Model/Errors.lean`. -/
-open Lean PF PF.Drv PF.Errors
+open Lean PF PF.Drv PF.Errors PF.Errors.File
 
 /-- keyword arguments compared up to order: sort by name, compare the printed JSON -/
 def kwKey (kw : List (String × Val)) : String :=
@@ -74,9 +75,59 @@ def putAnnotated (baseCls : List String) (r : Raised) : List (String × Json) :=
   let s := surface (fun x => !(baseCls.contains x.cls)) r
   [("annotated", Json.bool (s.note.isSome && s.snap.isSome))]
 
-def putRaised (fails : Oracle) (r : Raised) : List (String × Json) :=
+/-- a value with its kind: `{"a": val}` | `{"k": "tuple"|"list", "xs": […]}` | `{"k": "dict", "keys": […], "xs": […]}` |
+    `{"k": "inst", "cls": …, "fields": […], "xs": […]}` -/
+partial def getPV (j : Json) : R PV := do
+  match j.getObjVal? "a" with
+  | .ok a => return .atom (← getVal a)
+  | .error _ =>
+    let xs ← listF getPV j "xs"
+    match ← strF j "k" with
+    | "tuple" => return .node .tuple xs
+    | "list" => return .node .list xs
+    | "dict" =>
+      let keys ← listF asStr j "keys"
+      if keys.length ≠ xs.length then .error "dict: keys and values differ in number" else return .node (.dict keys) xs
+    | "inst" =>
+      let fields ← listF asStr j "fields"
+      if fields.length ≠ xs.length then .error "inst: fields and values differ in number" else return .node (.inst (← strF j "cls") fields) xs
+    | k => .error s!"unknown value kind {k}"
+
+partial def putPV : PV → Json
+  | .atom v => jObj [("a", putVal v)]
+  | .node .tuple xs => jObj [("k", jStr "tuple"), ("xs", jArr (xs.map putPV))]
+  | .node .list xs => jObj [("k", jStr "list"), ("xs", jArr (xs.map putPV))]
+  | .node (.dict keys) xs => jObj [("k", jStr "dict"), ("keys", jList jStr keys), ("xs", jArr (xs.map putPV))]
+  | .node (.inst c fields) xs => jObj [("k", jStr "inst"), ("cls", jStr c), ("fields", jList jStr fields), ("xs", jArr (xs.map putPV))]
+
+def getMeta (j : Json) : R Meta := do
+  return { traceback := ← strF j "traceback", timestamp := ← strF j "timestamp", user := ← strF j "user", machine := ← strF j "machine",
+           ip := ← strF j "ip_address", cwd := ← strF j "current_directory" }
+
+def putMeta (m : Meta) : Json :=
+  jObj [("traceback", jStr m.traceback), ("timestamp", jStr m.timestamp), ("user", jStr m.user), ("machine", jStr m.machine),
+        ("ip_address", jStr m.ip), ("current_directory", jStr m.cwd)]
+
+def putSnapFile (s : SnapFile) : Json :=
+  jObj [("fname", jStr s.fname), ("exn", putExn s.exn), ("args", jArr (s.args.map putPV)),
+        ("kwargs", jArr (s.kwargs.map fun kv => jArr [jStr kv.1, putPV kv.2])), ("meta", putMeta s.info)]
+
+def putOutcome : Option (Except Exn Unit) → Json
+  | some (.error x) => putExn x
+  | some (.ok _) => jStr "returned"
+  | none => jStr "unreadable"
+
+def metaNone : Meta := { traceback := "", timestamp := "", user := "", machine := "", ip := "", cwd := "" }
+
+/-- `"boxed": [names]`: the arguments the harness hands over as `DBox` instances (`terms.box_some`) -/
+def getBoxed (a : Json) : R (List String) := do return (← optF (asList asStr) a "boxed").getD []
+
+/-- the raised object; `reproduce` is evaluated THROUGH THE FILE (`saveFile` / `loadFile` / `reproduceFile`, `C13_snapshot_file`) with the
+    argument kinds the harness uses -/
+def putRaised (fails : Oracle) (r : Raised) (boxed : List String := []) : List (String × Json) :=
   [("exn", putExn r.exn), ("noteFunc", jStr r.noteFunc), ("noteKw", putKw r.noteKw), ("snap", putSnap r.snap),
-   ("reproduce", match reproduce fails (load (save r.snap)) with | .error x => putExn x | .ok _ => Json.null)]
+   ("reproduce", match reproduce fails r.snap with | .error x => putExn x | .ok _ => Json.null),
+   ("reproduceFile", putOutcome (reproduceFile fails (saveFile (ofSnapshot (boxNamed boxed) metaNone r.snap))))]
 
 def getFunc (j : Json) : R Pipe.Func := do
   return { name := ← strF j "name", params := ← listF (asPair asStr asStr) j "params", outputs := ← listF asStr j "outputs",
@@ -127,12 +178,13 @@ def handle (m : String) (a : Json) : R Json := do
     -- `"rename"`: the user functions raise `h x` where the listed oracle raises `x` (`mapOracle`, `C13_class_parametric_call`)
     let fails := match ← getRename a with | some h => mapOracle h fails0 | none => fails0
     let baseCls := (← getBaseClasses (← fld a "fail")) ++ (← getRenameFlag a "base")
+    let boxed ← getBoxed a
     match Call.runTopE fails fs kw req with
     | .refused e => return putPErr e
     | .value o => return jObj [("value", putVal o.value), ("calls", jList jStr o.calls)]
     | .raised r calls =>
       return jObj ([("raised", Json.bool true), ("calls", jList putInv calls),
-                    ("pipelineSnap", jOpt putSnap (Call.pipelineSnapshot fails calls))] ++ putAnnotated baseCls r ++ putRaised fails r)
+                    ("pipelineSnap", jOpt putSnap (Call.pipelineSnapshot fails calls))] ++ putAnnotated baseCls r ++ putRaised fails r boxed)
   | "map.fail" =>
     let fs ← listF getMFunc a "funcs"
     let inputs ← getKw (← fld a "inputs")
@@ -142,6 +194,7 @@ def handle (m : String) (a : Json) : R Json := do
     let fails := match ← getRename a with | some h => mapOracle h fails0 | none => fails0
     let baseCls := (← getBaseClasses (← fld a "fail")) ++ (← getRenameFlag a "base")
     let stopCls := (← getStopClasses (← fld a "fail")) ++ (← getRenameFlag a "stop")
+    let boxed ← getBoxed a
     let modeS ← strF a "mode"
     let mode ← match modeS with
       | "seq" => pure Mode.seq
@@ -197,9 +250,26 @@ def handle (m : String) (a : Json) : R Json := do
         | none => Json.null
       return jObj ([("raised", Json.bool true), ("candidates", cands), ("resume", resume), ("gen", jNat g), ("log", jList putTask log), ("stored", putKw stored),
                     ("gens", jList (jList jStr) ((Map.generations fs).map fun g => g.map (·.name))),
-                    ("pipelineSnap", jOpt putSnap snapP), ("spec", spec)] ++
+                    ("pipelineSnap", jOpt putSnap snapP), ("funcSnap", jOpt putSnap (funcSnapshot fails r.noteFunc log)), ("spec", spec)] ++
                    -- `map_async`: what `await` hands to the caller (`awaitExn`, `C13_await_kinds`)
-                   (if modeS = "async" then [("awaited", putAwaited stopCls r.exn)] else []) ++ putAnnotated baseCls r ++ putRaised fails r)
+                   (if modeS = "async" then [("awaited", putAwaited stopCls r.exn)] else []) ++ putAnnotated baseCls r ++ putRaised fails r boxed)
+  | "snap.file" =>
+    -- `ErrorSnapshot.save_to_file` / `load_from_file` on a snapshot whose argument values have kinds (`Model/ErrorsFile.lean`, `Props/C13File.lean`)
+    let s : SnapFile := { fname := ← strF a "fname", exn := ← getExn (← fld a "exn"), args := ← listF getPV a "args",
+                          kwargs := ← listF (asPair asStr getPV) a "kwargs", info := ← getMeta (← fld a "meta") }
+    -- the wrapped function raises `exn` exactly when it is called with the values of the snapshot (what it SEES of them: `unbox`)
+    let key := kwKey s.toSnapshot.kwargs
+    let fails : Oracle := fun name kw => if name = s.fname && kwKey kw = key then some s.exn else none
+    let file := saveFile s
+    let viaAsdict := saveWith asdict s
+    return jObj [("tokens", jNat file.length), ("loaded", jOpt putSnapFile (loadFile file)),
+                 ("seen", putKw s.toSnapshot.kwargs),
+                 ("reproduce", putOutcome (reproduceFile fails file)),
+                 ("hasInst", Json.bool s.hasInst),
+                 ("asdict", jOpt putSnapFile (loadFile viaAsdict)),
+                 ("asdictSeen", jOpt (fun (t : SnapFile) => putKw t.toSnapshot.kwargs) (loadFile viaAsdict)),
+                 ("asdictReproduce", putOutcome (reproduceFile fails viaAsdict)),
+                 ("truncatedLoads", Json.bool ((loadFile file.dropLast).isSome || (loadFile (file.drop 1)).isSome))]
   | _ => .error s!"unknown entry {m}"
 
 def main : IO Unit := loop handle
